@@ -288,7 +288,9 @@ def sym_validate(vc):
                           _b(len(ys) == 1 and ys[0].obj is row) if len(ys) != 1 else
                           z3.And(_b(ys[0].obj is row), same_row(ys[0].value, snap)))
                     cover(it, 'row-iter-reachable[%s]' % tag)
-                it.loops['DataStreamProcessor.process_resource#L0'] = LoopSpec(at_start=at_start, at_end=at_end)
+                if mode == 'unselected':
+                    # (only an unselected resource reaches the default row loop of the base class)
+                    it.loops['DataStreamProcessor.process_resource#L0'] = LoopSpec(at_start=at_start, at_end=at_end)
                 g = it.call(it.lib.getattr_(it, v, 'process_resource'), [r])
                 it.run_generator(g)
                 evs = it.path.events[n0:]
@@ -555,7 +557,7 @@ def _items():
         return [], dict(resources=sel, target=sym_str(it, 'target'), operation='constant', with_=sym_str(it, 'with'))
     items.append(_closure_item('add_computed_field.func', 'add_computed_field.py', 'add_computed_field', 'func',
                                'dataflows.processors.add_computed_field', acf_args, gen_of({'process_resource'}),
-                               'func#L2', pkg_loop='func#L0'))
+                               'func#L1', pkg_loop='func#L0'))
 
     def unp_args(it, sel):
         from pyvc.api import PyList, PyDict, sym_str, sym_row
